@@ -45,6 +45,8 @@ func (q c03Req) wire(i int) []byte {
 		v.Set("app", q.body)
 	case "raw":
 		v.Set("raw", q.body)
+	case "bops":
+		v.Set("bops", q.body)
 	case "stream":
 		v.Set("stream", fmt.Sprintf("%d:%d", q.decl, q.act))
 		if q.rmode != "" {
@@ -84,6 +86,31 @@ func (q c03Req) wantBody() []byte {
 		return nil
 	}
 	switch q.bodyKind {
+	case "bops":
+		// reference for a body built in steps: Set* replaces everything, Append/Write add to what is there — after
+		// SetBodyRaw there is no buffered body left, so they start afresh —, SetBodyRaw(nil) and ResetBody leave it empty
+		var cur []byte
+		raw := false
+		for _, op := range strings.Split(q.body, "|") {
+			if op == "" {
+				continue
+			}
+			arg := op[1:]
+			switch op[0] {
+			case 'b':
+				cur, raw = []byte(arg), false
+			case 'a', 'w':
+				if raw {
+					cur = nil
+				}
+				cur, raw = append(cur, arg...), false
+			case 'r':
+				cur, raw = []byte(arg), true
+			case 'R', 'x':
+				cur, raw = nil, op[0] == 'R'
+			}
+		}
+		return cur
 	case "body", "app", "raw":
 		return []byte(q.body)
 	case "stream":
@@ -130,7 +157,7 @@ func decodeC03(a [][]byte) []c03Req {
 func init() {
 	Register(&Prop{
 		ID: "C03", NoShrink: true,
-		Rule: "pipelines of 1..4 requests (GET/HEAD/POST x HTTP/1.0 keep-alive/1.1) whose handlers build the response by generated programs: every status 200..999 (each once with a body and a following request; 204/304 weighted), status message, body streams behind readers of every contract-conforming behaviour (WriterTo, plain, final bytes with io.EOF, one byte per Read, zero-length reads, failing before the first byte or after the first piece), added headers (repeated names), framing fields set by hand in several letter cases (header normalising on and off), cookies, " +
+		Rule: "pipelines of 1..4 requests (GET/HEAD/POST x HTTP/1.0 keep-alive/1.1) whose handlers build the response by generated programs: every status 200..999 (each once with a body and a following request; 204/304 weighted), status message, bodies built in several steps through different body APIs (SetBodyString / AppendBodyString / Write / SetBodyRaw / ResetBody), body streams behind readers of every contract-conforming behaviour (WriterTo, plain, final bytes with io.EOF, one byte per Read, zero-length reads, failing before the first byte or after the first piece), added headers (repeated names), framing fields set by hand in several letter cases (header normalising on and off), cookies, " +
 			"body set/append/raw, SetBodyStream with declared size exact / short / long (by more than a buffer) / unknown, SetBodyStreamWriter, SkipBody; the wire is parsed with net/http.ReadResponse (the independent parser) knowing the request methods; " +
 			"non-trivial = some response carries a body or a stream; distinct = distinct input",
 		Parallel: true,
@@ -290,6 +317,13 @@ func init() {
 						q[6], q[7] = strconv.Itoa(decl), strconv.Itoa(act)
 					case 6:
 						q[5], q[7] = "sw", strconv.Itoa([]int{3, 30, 9000}[r.Intn(3)])
+					case 7:
+						// the body built in 2..5 steps through different body APIs
+						var ops []string
+						for k, m := 0, 2+r.Intn(4); k < m; k++ {
+							ops = append(ops, r.Pick([]string{"bfirst draft. ", "atail", "wmore", "rRAWBODY", "R", "x", "a-x-", "rsecond raw"}))
+						}
+						q[5], q[4] = "bops", strings.Join(ops, "|")
 					}
 					var hs, cs []string
 					for k := 0; k < r.Intn(3); k++ {
